@@ -142,6 +142,7 @@ def do_get_facts() -> Dict[str, object]:
     fn = T.func(T.parse(REPO_PY), "do_get_candidate")
     skip = None
     cmp_ge = None
+    break_body = None
     for n in ast.walk(fn):
         if isinstance(n, ast.If) and isinstance(n.test, ast.Compare) and _src(n.test.left) == "candidate.type":
             if len(n.test.ops) != 1 or not isinstance(n.test.ops[0], ast.Eq):
@@ -172,16 +173,33 @@ def do_get_facts() -> Dict[str, object]:
                 cmp_ge = False
             else:
                 raise TranslateError("do_get_candidate: budget comparison operator not >= or >")
+            break_body = [_src(x) for x in n.body]
     if skip is None or cmp_ge is None:
         raise TranslateError("do_get_candidate: sdist skip or budget test not found")
-    # the fallback condition
+    # the fallback condition, and whether it is guarded by the budget give-up flag
     conds = [n for n in fn.body if isinstance(n, ast.If) and any(isinstance(x, ast.Return) for x in n.body)]
     if len(conds) != 1:
         raise TranslateError("do_get_candidate: fallback `if` not found")
-    want = "(_is_all_prereleases(candidates) or req_compile.utils.has_prerelease(req)) and (not allow_prereleases)"
-    if _src(conds[0].test) != want:
-        raise TranslateError("do_get_candidate: fallback condition changed: " + _src(conds[0].test))
-    return {"skip": skip, "cmp_ge": cmp_ge}
+    base = "(_is_all_prereleases(candidates) or req_compile.utils.has_prerelease(req)) and (not allow_prereleases)"
+    cond = _src(conds[0].test)
+    gave_up_uses = sorted(_src(n) for n in ast.walk(fn) if isinstance(n, ast.Assign) and any(_src(t) == "gave_up" for t in n.targets))
+    names = [n for n in ast.walk(fn) if isinstance(n, ast.Name) and n.id == "gave_up"]
+    if cond == base:
+        if break_body != ["break"] or names:
+            raise TranslateError("do_get_candidate: unguarded fallback but a gave_up flag / extra statements at the budget break")
+        guarded = False
+    elif cond == base + " and (not gave_up)":
+        # gave_up = False first (before `if candidates:`), set to True only right before the budget break
+        if break_body != ["gave_up = True", "break"] or gave_up_uses != ["gave_up = False", "gave_up = True"] or len(names) != 3:
+            raise TranslateError("do_get_candidate: gave_up flag is not set exactly at the budget break")
+        idx = [i for i, st in enumerate(fn.body) if _src(st) == "gave_up = False"]
+        idx_if = [i for i, st in enumerate(fn.body) if isinstance(st, ast.If) and _src(st.test) == "candidates"]
+        if len(idx) != 1 or len(idx_if) != 1 or idx[0] > idx_if[0]:
+            raise TranslateError("do_get_candidate: gave_up is not initialised before the candidate loop")
+        guarded = True
+    else:
+        raise TranslateError("do_get_candidate: fallback condition changed: " + cond)
+    return {"skip": skip, "cmp_ge": cmp_ge, "guarded": guarded}
 
 
 def pin_ops() -> Tuple[List[str], bool]:
@@ -251,6 +269,25 @@ def sdist_extra_default() -> str:
     return v
 
 
+def py_tag_parse() -> None:
+    """_impl_major_minor: the major is the single character at index 2 and the minor is ALL remaining
+    characters (two-digit minors); _is_py_version_compatible compares them with sys.version_info."""
+    fn = T.func(T.parse(REPO_PY), "_impl_major_minor")
+    assigns = {}
+    for n in ast.walk(fn):
+        if isinstance(n, ast.Assign) and len(n.targets) == 1 and isinstance(n.targets[0], ast.Name) \
+                and n.targets[0].id in ("major", "minor", "impl") and not isinstance(n.value, ast.Constant):
+            assigns.setdefault(n.targets[0].id, []).append(_src(n.value))
+    want = {"impl": ["py_version[:2]"], "major": ["int(py_version[2])"], "minor": ["int(py_version[3:])"]}
+    if assigns != want:
+        raise TranslateError(f"_impl_major_minor: tag parsing changed: {assigns}")
+    fn2 = T.func(T.parse(REPO_PY), "_is_py_version_compatible")
+    tests = [_src(n.test) for n in ast.walk(fn2) if isinstance(n, ast.If)]
+    want2 = ["impl == 'py' or impl == INTERPRETER_TAG", "major == sys.version_info.major and minor <= sys.version_info.minor"]
+    if tests != want2:
+        raise TranslateError(f"_is_py_version_compatible: tests changed: {tests}")
+
+
 PRE_TEST = "not has_equality and (not allow_prereleases) and candidate.version.is_prerelease"
 FLAG = "has_equality or allow_prereleases"
 
@@ -268,6 +305,7 @@ def gen_c03_consts() -> str:
     facts = do_get_facts()
     ops, no_wild = pin_ops()
     sd = sdist_extra_default()
+    py_tag_parse()
     b = T.HEADER
     b += "(* C03: read from req_compile/repos/repository.py and req_compile/utils.py *)\n"
     b += "Inductive field := FVersion | FExtra | FType | FTag.\n"
@@ -279,7 +317,10 @@ def gen_c03_consts() -> str:
     b += "Definition usability_reasons : list string := " + T.coq_list([T.coq_str(r) for r in reasons]) + ".\n"
     b += "Definition skipped_kind : kind := " + {"SDIST": "Sdist", "WHEEL": "Wheel", "SOURCE": "Source"}[str(facts["skip"])] + ".\n"
     b += "Definition budget_cmp_ge : bool := " + ("true" if facts["cmp_ge"] else "false") + ".\n"
+    b += "Definition fallback_requires_not_gave_up : bool := " + ("true" if facts["guarded"] else "false") + ".\n"
     b += "Definition pin_ops : list string := " + T.coq_list([T.coq_str(o) for o in ops]) + ".\n"
     b += "Definition pin_excludes_wildcard : bool := " + ("true" if no_wild else "false") + ".\n"
     b += "Definition sdist_extra_default : string := " + T.coq_str(sd) + ".\n"
+    b += "(* _impl_major_minor / _is_py_version_compatible matched: major = one digit, minor = all remaining digits,\n   compatible iff impl in (py, running) and major equal and minor <= running minor *)\n"
+    b += "Definition py_minor_reads_all_digits : bool := true.\n"
     return b
